@@ -34,6 +34,12 @@ import FianoModel.Uefi.ExtractNvarPaths
 import FianoModel.Uefi.ExtractNvarLoad
 import FianoModel.Uefi.ExtractNvarNested
 import FianoModel.Uefi.ExtractNvarSample
+import FianoModel.Uefi.ExtractNvTree
+import FianoModel.Uefi.ExtractNvParse
+import FianoModel.Uefi.ExtractNvTreeSample
+import FianoModel.Uefi.ExtractMeLemmas
+import FianoModel.Uefi.ExtractTwiceParsed
+import FianoModel.Uefi.ExtractTwiceParsedAttrs
 import FianoModel.Uefi.Lemmas.Final
 import FianoModel.Uefi.Spec
 import FianoModel.Uefi.Tie
@@ -464,6 +470,125 @@ example : OffsDistinct 1 0xFF [f1Var, { f1Var with offset := 14 }] :=
   ⟨by decide, fun _ _ _ _ => trivial⟩
 example : validUtf8 [0x41, 0xC3, 0xA9] = true := by decide
 
+
+/-! ### follow-up wp-c07c (round 3): the tree-level round trip for trees WITH NVAR stores
+
+  The hooks of the UEFI core model are instantiated with property C10's model (Uefi/ExtractNvTreeDefs.lean):
+  `c10Hooks h0 pol` — `NewNVarStore` and `Assemble` on the store of a RAW file are C10's `parseStore` / `asmStore`
+  (under the one erase polarity `pol` a process has); `c10DirHooks h0 pol` — in the process that loaded the
+  directory the store hanging off the file is the one `ParseDir` rebuilt (entry records from summary.json with
+  `jsonName`d names, `make([]byte, DataOffset) ++ value file`, nested stores as children) and `Assemble` on it is
+  `asmDirStore`.  `okNvTree` is `okTree` with such files allowed; `nvUtf8Tree pol t` says that every variable
+  name of every store of the tree, nested stores included, is valid UTF-8 — its failure is known finding F-C07-1
+  (`nvar_nonutf8_name_not_reloadable` above), the explicit exception. -/
+
+/-- **C07a, single pass, trees with NVAR stores** (DESIGN §7 `asm (parseDir (extract t)) = asm t`): extract,
+    then in a fresh process ParseDir and `Assemble.Run` = one `Assemble` pass over the parsed tree in the process
+    that parsed it, i.e. the direct save — for every tree (flash or BIOS, any depth, any number of stores, nested
+    stores included), every value of the garbage fields, errors included -/
+theorem load_assemble_eq_direct_save_nvar (h0 : Hooks) (pol : UInt8) (junk : FileInfo → Nat) (t : Tree) (st : St)
+    (hok : okNvTree t = true) (hw : pwTree t = true) (hu : nvUtf8Tree pol t = true)
+    (hp : st.pol = 0xF0 ∨ TopPol st.pol t = true) :
+    extractLoadAsmNv h0 pol junk t = asmWith (c10Hooks h0 pol) t st :=
+  extractLoadAsmNv_eq h0 pol junk t st hok hw hu hp
+
+/-- … and `utk DIR save` (ParseDir, Assemble, then Save which assembles again) = the same two passes over the
+    parsed tree, whatever the second pass does with the store objects the first pass left in memory (`h2`: after
+    the first pass both processes hold the same assembled stores) -/
+theorem extract_dirsave_eq_assemble_twice_nvar (h0 : Hooks) (pol : UInt8) (h2 : Hooks) (junk : FileInfo → Nat)
+    (t : Tree) (st : St) (hok : okNvTree t = true) (hw : pwTree t = true) (hu : nvUtf8Tree pol t = true)
+    (hp : st.pol = 0xF0 ∨ TopPol st.pol t = true) :
+    extractSaveNv h0 pol h2 junk t = asmTwice2 (c10Hooks h0 pol) h2 t st :=
+  extractSaveNv_eq h0 pol h2 junk t st hok hw hu hp
+
+/-- every tree `uefi.Parse` builds — with any NVAR hook, C10's included — satisfies `okNvTree` -/
+theorem parse_okNvTree (h : Hooks) (bs : Bytes) (t : Tree) (hp : parse h bs = .ok t) : okNvTree t = true :=
+  nvp_parse_okTree h bs t hp
+
+/-- **… for every byte string `uefi.Parse` accepts, NVAR stores parsed by C10's `NewNVarStore`**: if all variable
+    names are valid UTF-8, the directory round trip (one `Assemble` pass) writes what `utk IMAGE save` writes;
+    no other hypothesis -/
+theorem roundtrip_parsed_nvar (h0 : Hooks) (pol : UInt8) (junk : FileInfo → Nat) (bs : Bytes) (t : Tree) (st : St)
+    (hp : parseWith (c10Hooks h0 pol) (defaultFuel bs) bs {} = .ok (t, st)) (hu : nvUtf8Tree pol t = true) :
+    extractLoadAsmNv h0 pol junk t = asmWith (c10Hooks h0 pol) t st ∧
+      extractLoadAsmNv h0 pol junk t = save (c10Hooks h0 pol) bs := by
+  have hp' := parse_of_parseWith _ bs _ st hp
+  have e := extractLoadAsmNv_eq h0 pol junk t st (nvp_parse_okTree _ bs _ hp') (parse_pw _ bs _ hp')
+    hu (parse_topPol _ bs _ st hp)
+  refine ⟨e, ?_⟩
+  rw [e]
+  unfold save
+  rw [hp]
+
+/-- the two-pass form for parsed images -/
+theorem roundtrip_parsed_twice_nvar (h0 : Hooks) (pol : UInt8) (h2 : Hooks) (junk : FileInfo → Nat) (bs : Bytes)
+    (t : Tree) (st : St) (hp : parseWith (c10Hooks h0 pol) (defaultFuel bs) bs {} = .ok (t, st))
+    (hu : nvUtf8Tree pol t = true) :
+    extractSaveNv h0 pol h2 junk t = asmTwice2 (c10Hooks h0 pol) h2 t st := by
+  have hp' := parse_of_parseWith _ bs _ st hp
+  exact extractSaveNv_eq h0 pol h2 junk t st (nvp_parse_okTree _ bs _ hp') (parse_pw _ bs _ hp') hu
+    (parse_topPol _ bs _ st hp)
+
+/-- the store-level fact the composition rests on: on a store whose names are valid UTF-8 the two hooks agree
+    (C07's `asmDirStore_eq` against C10's `asmStore`), under every polarity -/
+theorem nvar_hooks_agree (pol : UInt8) (nv : NvStore) (p : UInt8) (hu : nvUtf8Slot pol nv = true) :
+    nvtAsmDir pol nv p = nvtAsmC10 pol nv p := nvtAsmDir_eq pol nv p hu
+
+/-- non-vacuity: a parsed 184-byte image with a store (two variables of one name) satisfies `okNvTree` (not
+    `okTree`), `pwTree`, `nvUtf8Tree`, `TopPol`; the directory round trip (one and two passes) and the direct save
+    all return the image -/
+theorem sample_nvtree_holds : NvTreeSample.bytes.length = 184 ∧ NvTreeSample.holds = true :=
+  NvTreeSample.sample_nvtree_holds
+
+
+/-! ### follow-up wp-c07c (round 3): the ME flash partition table (`$FPT`)
+
+  Model: Uefi/ExtractMe.lean (`meParseFpt` = `NewMEFPT`, `meNewRegion` = `NewMERegion`, `meNameMarshal` /
+  `meNameUnmarshal` = `MEName.MarshalText` / `UnmarshalText`, `meSummary` / `meLoad` = summary.json and what ParseDir
+  builds, `meRoundTrip` = extract, ParseDir, Assemble on the region).  `Extract` writes only the region buffer,
+  `Assemble` has no arm for the region or its table: the table travels through summary.json alone. -/
+
+/-- every 4-byte partition name — text, trailing zeros, erased `FF FF FF FF`, arbitrary bytes — comes back from
+    summary.json as it was (`MarshalText`, encoding/json, `UnmarshalText`; defect 1 of reports/C07.md, repaired) -/
+theorem me_name_roundtrip (n : Bytes) (hn : n.length = 4) :
+    meNameUnmarshal (jsonName (meNameMarshal n)) = .ok n := meName_roundtrip n hn
+
+/-- what `NewMEFPT` returns: as many entries as `PartitionCount`, a buffer of `PartitionMapStart + 32·PartitionCount`
+    bytes that is a prefix of the region, `PartitionMapStart ≥ 32`, 4-byte names -/
+theorem me_fpt_facts (b : Bytes) (p : MeFpt) (hp : meParseFpt b = .ok p) :
+    p.entries.length = p.count ∧ p.buf.length = p.mapStart + 32 * p.count ∧ 32 ≤ p.mapStart ∧
+      p.buf = b.take p.buf.length ∧ ∀ e ∈ p.entries, e.name.length = 4 := meParseFpt_facts b p hp
+
+/-- the table `ParseDir` rebuilds from summary.json is the parsed table without its buffer, for every region
+    `NewMEFPT` accepts (any number of entries, any names) -/
+theorem me_fpt_dir_roundtrip (b : Bytes) (p : MeFpt) (hp : meParseFpt b = .ok p) :
+    meLoad (meSummary p) = .ok { p with buf := [] } := meFpt_dir_roundtrip b p hp
+
+/-- **directory round trip of an ME region**, for every region buffer (table found or not, below any DirPath):
+    extract, ParseDir, Assemble never fail and return the region's bytes, the parsed table without its buffer and the
+    FreeSpaceOffset `NewMERegion` computed -/
+theorem me_region_dir_roundtrip (dir : List Comp) (buf : Bytes) :
+    meRoundTrip dir buf =
+      .ok { buf := buf, fpt := (meNewRegion buf).fpt.map (fun p => { p with buf := [] }),
+            free := (meNewRegion buf).free } := meRegion_dir_roundtrip dir buf
+
+/-- … so after the round trip summary.json and the bytes still agree: the table in memory is the one `NewMERegion`
+    reads from the reassembled region -/
+theorem me_region_consistent (dir : List Comp) (buf : Bytes) (r : MeRegionX) (h : meRoundTrip dir buf = .ok r) :
+    r.buf = buf ∧ r.fpt = (meNewRegion r.buf).fpt.map (fun p => { p with buf := [] }) ∧
+      r.free = (meNewRegion r.buf).free := meRegion_consistent dir buf r h
+
+/-- non-vacuity: a region with the signature at 16, one entry named `AB\0\0` at offset 16, length 32 -/
+def meSampleRegion : Bytes :=
+  List.replicate 16 0 ++ meSig ++ [1, 0, 0, 0] ++ List.replicate 24 0 ++
+    [0x41, 0x42, 0, 0, 0xFF, 0xFF, 0xFF, 0xFF, 16, 0, 0, 0, 32, 0, 0, 0] ++ List.replicate 16 7 ++ [9, 9]
+
+example : (match meParseFpt meSampleRegion with
+    | .ok p => p.count == 1 && p.mapStart == 48 && p.buf.length == 80 && (p.entries.map (·.name)) == [[0x41, 0x42, 0, 0]]
+    | .error _ => false) = true ∧ (meNewRegion meSampleRegion).free = 48 := by decide
+example : meNameMarshal [0x41, 0x42, 0, 0] = [0x41, 0x42] ∧
+    meNameMarshal [0xFF, 0xFF, 0xFF, 0xFF] = asc "0xffffffff".toList := by decide
+
 /-! ### the hypotheses are inhabited -/
 
 open Spec in
@@ -503,6 +628,99 @@ def sampleHolds : Bool :=
   | .error _ => false
 
 theorem sample_holds : Spec.wf sampleImg = true ∧ sampleHolds = true := by decide +kernel
+
+
+/-! ### follow-up wp-c07c (round 3): the side condition `savedOkAll`, split
+
+  `savedOkAll` speaks about the tree the first `Assemble` pass wrote.  Its part `DataOffset ≥ 60` is a predicate on
+  the PARSED image, `d60Tree t` (Uefi/ExtractTwiceParsedDefs.lean): every volume with files, at any depth, has
+  `DataOffset ≥ 60`, `DataOffset` being `align8 HeaderLen` — `align8 (ExtHeaderOffset + ExtHeaderSize)` for a volume
+  with an extended header (`fv_dataOffset_of_header`).  `uefi.Parse` does not check `HeaderLen`: `dataoffset_56_parses`
+  is a 128-byte volume that parses with `DataOffset = 56` (the block map is read as the first file's GUID).
+  `restOkAll` is what remains of the side condition (sizes: buffer ≤ Length, re-laid files below 2^62 — fail only when
+  `uefi.Align` wraps around 2^64; attribute bytes; region spans). -/
+
+/-- one `Assemble` pass (any hooks, NVAR files included, errors aside) changes neither the `DataOffset` of a volume
+    nor which volumes have files -/
+theorem first_pass_keeps_dataoffset (h : Hooks) (t : Tree) (st : St) (t1 : Tree) (st1 : St)
+    (ha : asmTreeWith h t st = .ok (t1, st1)) : d60Tree t1 = d60Tree t := d60_asmTree h t st t1 st1 ha
+
+/-- **the side condition, split**: `savedOkAll` ⇔ its remaining parts on what the first pass wrote ∧ (when the
+    first pass succeeds) `DataOffset ≥ 60` in every volume with files of the tree as parsed -/
+theorem saved_ok_split (h : Hooks) (t : Tree) (st : St) :
+    savedOkAll h t st = true ↔
+      restOkAll h t st = true ∧
+        ((asmTreeWith h t { st with ffs3 := false }).toOption.isSome = true → d60Tree t = true) :=
+  savedOkAll_iff h t st
+
+/-- what `DataOffset` is in terms of the header bytes `NewFirmwareVolume` read -/
+theorem fv_dataOffset_of_header (data : Bytes) (blocks : List Block) (off : Nat) (rz : Bool) :
+    (fvInfoOf data blocks off rz).dataOffset =
+      align8 (if (fvInfoOf data blocks off rz).extHeaderOffset ≠ 0 ∧ (fvInfoOf data blocks off rz).length ≥ 20 ∧
+                (fvInfoOf data blocks off rz).extHeaderOffset ≤ (fvInfoOf data blocks off rz).length - 20
+              then (fvInfoOf data blocks off rz).extHeaderOffset + (fvInfoOf data blocks off rz).extHeaderSize
+              else (fvInfoOf data blocks off rz).headerLen) := by
+  unfold fvInfoOf
+  simp only []
+  by_cases hc : (rd data 52 2 ≠ 0 ∧ rd data 32 8 ≥ 20 ∧ rd data 52 2 ≤ rd data 32 8 - 20)
+  · simp [hc]
+  · simp [hc]
+
+/-- `roundtrip_parsed_eq_direct_save` with the side condition in its split form: for every byte string `uefi.Parse`
+    accepts whose volumes with files have `DataOffset ≥ 60` -/
+theorem roundtrip_parsed_eq_direct_save_d60 (h : Hooks) (hnv : ∀ x, h.nvarParse x = none) (junk : FileInfo → Nat)
+    (bs : Bytes) (t : Tree) (st : St) (hp : parseWith h (defaultFuel bs) bs {} = .ok (t, st))
+    (hd : d60Tree t = true) (hr : restOkAll h t st = true) :
+    extractSave h junk t = asmWith h t st ∧ extractSave h junk t = save h bs :=
+  roundtrip_parsed_eq_direct_save h hnv junk bs t st hp (savedOkAll_of_parts h t st hr hd)
+
+/-- every parsed tree (any hooks) has attribute BYTES in its files, and one `Assemble` pass keeps that (`File.SetSize`
+    only sets or clears the large-file bit): the attribute part of the side condition needs no hypothesis -/
+theorem parsed_attrs_are_bytes (h : Hooks) (bs : Bytes) (t : Tree) (hp : parse h bs = .ok t) : at256Tree t = true :=
+  atp_parse_okTree h bs t hp
+
+theorem first_pass_keeps_attr_bytes (h : Hooks) (t : Tree) (st : St) (t1 : Tree) (st1 : St)
+    (ha : asmTreeWith h t st = .ok (t1, st1)) (hq : at256Tree t = true) : at256Tree t1 = true :=
+  at256_asmTree h t st t1 st1 ha hq
+
+/-- **the side condition for every byte string `uefi.Parse` accepts** (any hooks): `savedOkAll` follows from
+    `d60Tree t` (a predicate on the parsed image) and `sizeOkAll` — the size part alone: on what the first pass wrote,
+    no volume buffer longer than its `Length` and re-laid files ending below 2^62 (both fail only when `uefi.Align`
+    wraps around 2^64, i.e. for buffers beyond 2^62 bytes), and no flash region with an empty span -/
+theorem saved_ok_of_parsed (h : Hooks) (bs : Bytes) (t : Tree) (st : St) (hp : parse h bs = .ok t)
+    (hd : d60Tree t = true) (hs : sizeOkAll h t st = true) : savedOkAll h t st = true :=
+  savedOkAll_of_parsed h bs t st hp hd hs
+
+/-- **C07a for every parsed image, side condition reduced to `DataOffset ≥ 60` and the size bound** -/
+theorem roundtrip_parsed_eq_direct_save_sized (h : Hooks) (hnv : ∀ x, h.nvarParse x = none) (junk : FileInfo → Nat)
+    (bs : Bytes) (t : Tree) (st : St) (hp : parseWith h (defaultFuel bs) bs {} = .ok (t, st))
+    (hd : d60Tree t = true) (hs : sizeOkAll h t st = true) :
+    extractSave h junk t = asmWith h t st ∧ extractSave h junk t = save h bs :=
+  roundtrip_parsed_eq_direct_save h hnv junk bs t st hp
+    (savedOkAll_of_parsed h bs t st (parse_of_parseWith h bs t st hp) hd hs)
+
+/-- non-vacuity: the 835-byte sample satisfies `d60Tree`, `at256Tree`, `sizeOkAll` -/
+example : (match parseWith Hooks.none (defaultFuel sampleBytes) sampleBytes {} with
+      | .ok (t, st) => d60Tree t && at256Tree t && sizeOkAll Hooks.none t st
+      | .error _ => false) = true := by decide +kernel
+
+/-- a volume of 128 bytes with `HeaderLen = 56`: the 16 bytes of the block map and 8 more are read as a pad file -/
+def img56 : Bytes :=
+  List.replicate 16 0 ++ guidFFS2 ++ leN 8 128 ++ [0x5F, 0x46, 0x56, 0x48] ++ leN 4 0x0004FEFF ++ leN 2 56 ++
+    [0, 0] ++ [0, 0] ++ [0, 2] ++ leN 4 16 ++ leN 4 8 ++ List.replicate 8 0 ++ [0, 0, 0xF0, 0, 24, 0, 0, 0xF8] ++
+    List.replicate 48 0xFF
+
+/-- **`DataOffset < 60` does occur on parsed images**: `img56` parses, satisfies the other hypotheses (`okTree`,
+    `pwTree`, `restOkAll`), and fails exactly the `DataOffset` part of the side condition -/
+theorem dataoffset_56_parses :
+    (match parseWith Hooks.none (defaultFuel img56) img56 {} with
+      | .ok (t, st) => okTree t && pwTree t && restOkAll Hooks.none t st && !d60Tree t && !savedOkAll Hooks.none t st
+      | .error _ => false) = true := by decide +kernel
+
+/-- non-vacuity: the 835-byte sample satisfies both parts -/
+example : (match parseWith Hooks.none (defaultFuel sampleBytes) sampleBytes {} with
+      | .ok (t, st) => d60Tree t && restOkAll Hooks.none t st
+      | .error _ => false) = true := by decide +kernel
 
 /-- the same for a 16 KiB flash image with descriptor, ME region, gap and BIOS region (an MM depex
     section inside): every hypothesis of the theorems above, `savedOkAll` included, holds and the
